@@ -16,7 +16,10 @@ import (
 	"sort"
 	"strings"
 	"sync"
+	"sync/atomic"
 	"time"
+
+	"github.com/buildbuildio/pebbles/common"
 
 	"verifharness/fakesvc"
 	"verifharness/gw"
@@ -462,6 +465,160 @@ func repeatRuns(em *emitter, rng *rand.Rand, g *gw.GW, w *world.World, op *world
 	}
 }
 
+// ---------------------------------------------------------------------------- forced completion orders
+
+var reducedCount int64 // r.reduced events of every AsyncMapReduce instance (verif hook)
+
+func installReduceCounter() {
+	common.VerifHook.Store(func(id uint64, point string, kv ...interface{}) {
+		if point == "r.reduced" || point == "r.erred" {
+			atomic.AddInt64(&reducedCount, 1)
+		}
+	})
+}
+
+type pendingCall struct {
+	svc     string
+	call    int
+	release chan struct{}
+}
+
+// orderRuns executes the operation once per chosen completion order of the concurrent calls of each
+// depth (spec/ExecMerge.tla enumerates the orders): every call to a service is held at the fake
+// transport; when no further call arrives, the calls of that wave are let go one at a time in the
+// chosen order, the next one only after the executor has merged the previous result.
+func orderRuns(em *emitter, rng *rand.Rand, g *gw.GW, w *world.World, op *world.Op, run string, orders map[int][][]int) {
+	op.Fill()
+	g.ResetLogs()
+	g.Do(op)
+	_, calls := g.Net.Snapshot()
+	if len(calls) < 2 {
+		return
+	}
+	const variants = 6
+	for v := 0; v < variants; v++ {
+		var mu sync.Mutex
+		var pending []*pendingCall
+		arrivals := 0
+		g.ResetLogs()
+		g.Net.Gate = func(svc string, call int) {
+			pc := &pendingCall{svc: svc, call: call, release: make(chan struct{})}
+			mu.Lock()
+			pending = append(pending, pc)
+			arrivals++
+			mu.Unlock()
+			<-pc.release
+		}
+		type doRes struct {
+			st  int
+			env map[string]interface{}
+			err error
+		}
+		done := make(chan doRes, 1)
+		go func() {
+			st, env, err := g.Do(op)
+			done <- doRes{st, env, err}
+		}()
+		var res doRes
+		finished := false
+		waves := []int{}
+		deadline := time.Now().Add(20 * time.Second)
+		for !finished && time.Now().Before(deadline) {
+			// a wave: wait until calls are pending and no new one has arrived for a while
+			last, stable := -1, time.Now()
+			for {
+				select {
+				case res = <-done:
+					finished = true
+				default:
+				}
+				if finished {
+					break
+				}
+				mu.Lock()
+				n := arrivals
+				np := len(pending)
+				mu.Unlock()
+				if n != last {
+					last, stable = n, time.Now()
+				}
+				if np > 0 && time.Since(stable) > 1500*time.Microsecond {
+					break
+				}
+				time.Sleep(100 * time.Microsecond)
+			}
+			if finished {
+				break
+			}
+			mu.Lock()
+			wave := pending
+			pending = nil
+			mu.Unlock()
+			// the calls of a wave in a canonical order (service url), then permuted
+			sort.Slice(wave, func(i, j int) bool { return wave[i].svc < wave[j].svc })
+			perm := make([]int, len(wave))
+			for i := range perm {
+				perm[i] = i
+			}
+			if ps := orders[len(wave)]; len(ps) > 0 {
+				switch v {
+				case 0:
+				case 1:
+					perm = ps[len(ps)-1]
+				default:
+					perm = ps[rng.Intn(len(ps))]
+				}
+			} else if v > 0 {
+				rng.Shuffle(len(perm), func(i, j int) { perm[i], perm[j] = perm[j], perm[i] })
+			}
+			waves = append(waves, len(wave))
+			for _, i := range perm {
+				before := atomic.LoadInt64(&reducedCount)
+				close(wave[i].release)
+				// the result is merged (the per-call and the per-depth fan-out have both reduced) before the next one goes
+				t0 := time.Now()
+				for atomic.LoadInt64(&reducedCount) < before+2 && time.Since(t0) < 3*time.Millisecond {
+					time.Sleep(50 * time.Microsecond)
+				}
+			}
+		}
+		g.Net.Gate = nil
+		if !finished {
+			em.emit(map[string]interface{}{"ev": "Hang", "stacks": stacks()})
+			em.w.Flush()
+			os.Exit(3)
+		}
+		logs, _ := g.Net.Snapshot()
+		reqs := map[string][]string{}
+		for _, s := range w.Services {
+			reqs[s.URL] = []string{}
+		}
+		for _, lgx := range logs {
+			reqs[lgx.Svc] = append(reqs[lgx.Svc], lgx.Query+" | "+canon(lgx.Vars))
+		}
+		for u := range reqs {
+			sort.Strings(reqs[u])
+		}
+		msgs := []string{}
+		data := world.Z()
+		if res.err != nil {
+			msgs = []string{"malformed response: " + res.err.Error()}
+		} else {
+			seen := map[string]bool{}
+			for _, m := range errorMessages(res.env) {
+				if !seen[m.(string)] {
+					seen[m.(string)] = true
+					msgs = append(msgs, m.(string))
+				}
+			}
+			sort.Strings(msgs)
+			data = world.TagJSON(res.env["data"])
+		}
+		em.emit(map[string]interface{}{"ev": "Obs", "key": run + "|orders", "k": v, "status": res.st, "data": data, "errors": msgs, "reqs": reqs, "text": w.OpText(op),
+			"tags": op.Tags, "fault": false, "op": op, "waves": waves})
+	}
+}
+
 // faultRuns: a fault-free run (to learn which calls the operation makes), then the same operation
 // with ONE fault injected at a chosen (service, call, position), then a fault-free canary.
 func faultRuns(em *emitter, rng *rand.Rand, g *gw.GW, mono *fakesvc.Net, w *world.World, op *world.Op, run string) {
@@ -499,7 +656,30 @@ func cmdGen(args []string) {
 	dump := fs.String("dump", "", "directory to dump SDLs of failing-to-start worlds")
 	mode := fs.String("mode", "plain", "plain | faults | invalid | repeat")
 	repeats := fs.Int("repeats", 6, "executions per operation in repeat mode")
+	ordersFile := fs.String("orders", "", "completion orders enumerated by TLC (ndjson of {order: [...]}), for mode orders")
 	fs.Parse(args)
+	orders := map[int][][]int{}
+	if *ordersFile != "" {
+		f, err := os.Open(*ordersFile)
+		if err != nil {
+			panic(err)
+		}
+		sc := bufio.NewScanner(f)
+		for sc.Scan() {
+			var o struct {
+				Order []int `json:"order"`
+			}
+			if json.Unmarshal(sc.Bytes(), &o) == nil && len(o.Order) > 0 {
+				p := make([]int, len(o.Order))
+				for i, x := range o.Order {
+					p[i] = x - 1
+				}
+				orders[len(p)] = append(orders[len(p)], p)
+			}
+		}
+		f.Close()
+		installReduceCounter()
+	}
 	em, closef := newEmitter(*out)
 	defer closef()
 	rng := rand.New(rand.NewSource(*seed))
@@ -592,6 +772,8 @@ func cmdGen(args []string) {
 						faultRuns(em, rng, g, m, w, op, run)
 					case "repeat":
 						repeatRuns(em, rng, g, w, op, run, *repeats)
+					case "orders":
+						orderRuns(em, rng, g, w, op, run, orders)
 					case "invalid":
 						invalidRuns(em, rng, g, mono, w, op, run)
 					default:
